@@ -319,6 +319,20 @@ func verifDir() string {
 	return "/verif"
 }
 
+func outDir() string {
+	if d := os.Getenv("VERIF_OUT"); d != "" {
+		return d
+	}
+	return verifDir()
+}
+
+func genDir() string {
+	if d := os.Getenv("VERIF_GEN"); d != "" {
+		return d
+	}
+	return filepath.Join(verifDir(), ".gen")
+}
+
 func binFor(variant string) string {
 	self, _ := os.Executable()
 	base := strings.TrimSuffix(self, filepath.Ext(self))
@@ -354,6 +368,12 @@ func runWorker(p Property, cfg Config, tier string, shard, nshards int, deadline
 		cmd.Env = append(cmd.Env, "GOTRACEBACK=all")
 		if cfg.Variant != "race" {
 			cmd.Env = append(cmd.Env, "GOMAXPROCS=2")
+		} else {
+			// controlled scheduler: one OS thread; race reports go to a per-process log the worker inspects after every execution
+			dir := filepath.Join(genDir(), "race")
+			os.MkdirAll(dir, 0o755)
+			cmd.Env = append(cmd.Env, "GOMAXPROCS=1", "VERIF_RACE_LOG="+filepath.Join(dir, "r"),
+				"GORACE=halt_on_error=0 exitcode=0 history_size=5 log_path="+filepath.Join(dir, "r"))
 		}
 		stdout, _ := cmd.StdoutPipe()
 		var errBuf tailBuf
@@ -439,6 +459,8 @@ func runWorker(p Property, cfg Config, tier string, shard, nshards int, deadline
 			kind = "hang"
 		}
 		tail := errBuf.String()
+		os.MkdirAll(genDir(), 0o755)
+		os.WriteFile(filepath.Join(genDir(), fmt.Sprintf("crash-%s-%s-%d-%d.log", p.ID(), cfg.Name, shard, attempt)), []byte(fmt.Sprintf("case #%d %s\nerr=%v\n%s", ci, cn, err, tail)), 0o644)
 		key := kind + "@" + crashFrame(tail)
 		res.viols = append(res.viols, Violation{Config: cfg.Name, Case: cn, Key: key, Detail: fmt.Sprintf("worker died (%v) while executing the case; stderr head: %s", err, firstLines(tail, 6))})
 		if only != "" {
@@ -674,7 +696,7 @@ func checkMain(p Property, tier string) int {
 	exit := 0
 	nViol, nKnown, nDiscarded := 0, 0, 0
 	knownPrinted := map[string]bool{}
-	os.MkdirAll(filepath.Join(verifDir(), "replays", id), 0o755)
+	os.MkdirAll(filepath.Join(outDir(), "replays", id), 0o755)
 	for _, k := range keyOrder {
 		vs := byKey[k]
 		var kf *knownFinding
@@ -709,7 +731,7 @@ func checkMain(p Property, tier string) int {
 			continue
 		}
 		nViol += len(vs)
-		path := filepath.Join(verifDir(), "replays", id, sanitize(k)+".json")
+		path := filepath.Join(outDir(), "replays", id, sanitize(k)+".json")
 		rf := replayFile{Property: id, Tier: tier, Violation: v, Replay: fmt.Sprintf("scripts/run.sh %s replay %s", id, path)}
 		b, _ := json.MarshalIndent(rf, "", " ")
 		os.WriteFile(path, b, 0o644)
@@ -755,8 +777,8 @@ func checkMain(p Property, tier string) int {
 		"violations":  nViol,
 	}
 	b, _ := json.MarshalIndent(ev, "", " ")
-	os.MkdirAll(filepath.Join(verifDir(), "evidence"), 0o755)
-	if err := os.WriteFile(filepath.Join(verifDir(), "evidence", id+".json"), append(b, '\n'), 0o644); err != nil {
+	os.MkdirAll(filepath.Join(outDir(), "evidence"), 0o755)
+	if err := os.WriteFile(filepath.Join(outDir(), "evidence", id+".json"), append(b, '\n'), 0o644); err != nil {
 		fmt.Fprintf(os.Stderr, "HARNESS-ERROR cannot write evidence: %v\n", err)
 		return 2
 	}
